@@ -286,12 +286,33 @@ Definition emittedL (n : wname) (b' : bytes) (c c' : nat) (L : nat -> Prop) : Pr
   exists k pp, k < length n /\ slice b' c c' = nm_lwire (firstn k n) ++ be16 (ptr_word pp) /\
                L pp /\ pp < c /\ 0 < pp /\ pp <= pointer_max.
 
-(* the same with the new set of label starts given exactly: the old one plus this name's own *)
-Definition emittedT (n : wname) (b' : bytes) (c c' : nat) (L L' : nat -> Prop) : Prop :=
-  (slice b' c c' = nm_wire n /\ forall s, L' s <-> Lroot L c n s) \/
-  exists k pp, k < length n /\ slice b' c c' = nm_lwire (firstn k n) ++ be16 (ptr_word pp) /\
-               L pp /\ pp < c /\ 0 < pp /\ pp <= pointer_max /\
-               forall s, L' s <-> Lptr L c (firstn k n) s.
+(* the shape of a name chunk: plain (None) or k labels and a pointer to pp (Some (k, pp)) *)
+Definition shape := option (nat * nat).
+
+Definition shape_at (cp : bool) (n : wname) (b : bytes) (L : nat -> Prop) (pos e : nat) (sh : shape) : Prop :=
+  match sh with
+  | None => slice b pos e = nm_wire n
+  | Some (k, pp) => k < length n /\ slice b pos e = nm_lwire (firstn k n) ++ be16 (ptr_word pp) /\
+                    L pp /\ pp < pos /\ 0 < pp /\ pp <= pointer_max /\ named cp (skipn k n) b pos pp
+  end.
+
+(* the label starts (root included) of the chunk itself *)
+Definition own_starts (pos : nat) (n : wname) (sh : shape) : list nat :=
+  match sh with
+  | None => lstarts pos n ++ [pos + length (nm_lwire n)]
+  | Some (k, _) => lstarts pos (firstn k n)
+  end.
+
+(* what was emitted, and the new set of label starts given exactly: the old one plus this name's own *)
+Definition emittedT (cp : bool) (n : wname) (b' : bytes) (c c' : nat) (L L' : nat -> Prop) : Prop :=
+  exists sh, shape_at cp n b' L c c' sh /\ forall s, L' s <-> L s \/ In s (own_starts c n sh).
+
+Lemma Lroot_own L c n s : Lroot L c n s <-> L s \/ In s (own_starts c n None).
+Proof.
+  unfold Lroot, own_starts. rewrite in_app_iff. simpl. split.
+  - intros [H|[H|H]]; auto.
+  - intros [H|[H|[H|[]]]]; auto.
+Qed.
 
 Definition wroteL (cp : bool) (h : nat) (n : wname) (w : writer) (L : nat -> Prop)
            (pr : option prior) (w' : writer) : Prop :=
@@ -299,7 +320,7 @@ Definition wroteL (cp : bool) (h : nat) (n : wname) (w : writer) (L : nat -> Pro
   w_cursor w' <= w_cursor w + length (nm_wire n) /\
   emittedL n (w_buf w') (w_cursor w) (w_cursor w') L /\
   exists L', grew w w' L L' /\ NInv w' h L' /\ (forall p, pr = Some p -> L' (p_ptr p)) /\
-             emittedT n (w_buf w') (w_cursor w) (w_cursor w') L L'.
+             emittedT cp n (w_buf w') (w_cursor w) (w_cursor w') L L'.
 
 Definition name_postL (cp : bool) (h : nat) (n : wname) (w : writer) (L : nat -> Prop)
            (r : M (option prior)) : Prop :=
@@ -310,11 +331,22 @@ Definition name_postL (cp : bool) (h : nat) (n : wname) (w : writer) (L : nat ->
   | Panic => False
   end.
 
+Lemma named_weaken cp n b c i : named true n b c i -> named cp n b c i.
+Proof. intros [m [H1 H2]]. exists m. split; auto. apply name_eq_weaken; auto. Qed.
+
+Lemma shape_weaken cp n b L pos e sh : shape_at true n b L pos e sh -> shape_at cp n b L pos e sh.
+Proof.
+  destruct sh as [[k pp]|]; simpl; auto. intros [H1 [H2 [H3 [H4 [H5 [H6 H7]]]]]].
+  repeat split; auto. apply named_weaken; auto.
+Qed.
+
 Lemma name_postL_weaken cp h n w L r : name_postL true h n w L r -> name_postL cp h n w L r.
 Proof.
   destruct r as [[pr w']|[e w']|]; simpl; auto.
-  intros [W R]. split; auto.
-  exact (name_post_weaken cp (w_cursor w) n w (Ok (pr, w')) W).
+  intros [W [Hs [He [L' [G [Hi [Hp [sh [Hsh Ht]]]]]]]]]. split.
+  - exact (name_post_weaken cp (w_cursor w) n w (Ok (pr, w')) W).
+  - split; auto. split; auto. exists L'. split; auto. split; auto. split; auto.
+    exists sh. split; auto. apply shape_weaken; auto.
 Qed.
 
 Lemma hole_ext w w' h : ext (w_cursor w) w w' -> (length (w_buf w) <= h \/ h + 2 <= w_cursor w) ->
@@ -338,7 +370,7 @@ Proof.
       * apply lstarts_bound in K. rewrite nm_wire_length in Hcur. lia.
       * rewrite nm_wire_length in Hcur. lia.
     + eapply NInv_grow; eauto. intros; left; auto.
-    + split; [|left; split; [exact Hsl|intros s; tauto]].
+    + split; [|exists None; split; [exact Hsl|intros s; apply Lroot_own]].
       intros p Hp. destruct (hp_new (w_cursor w)) as [q|] eqn:Eh; simpl in Hp; [|discriminate].
       inversion Hp; subst p. apply hp_new_some in Eh as [-> _]. simpl.
       destruct n as [|l r]; [right; right; simpl; lia|right; left; apply lstarts_head; discriminate].
@@ -356,14 +388,16 @@ Proof.
   destruct (try_push (be16 (ptr_word (p_ptr pr))) w) as [[u w1]|[e w1]|] eqn:E; simpl in *; auto.
   - destruct (try_push_ext (w_cursor w) _ _ _ _ E (le_n _)) as [X [Sd [Hcur [Hsl Hag]]]].
     rewrite be16_length in Hcur.
-    destruct Hh as [[P0 [Pm _]] [Hlen [m [Hm _]]]]. destruct (name_at_lt _ _ _ _ Hm) as [Hlt _].
+    destruct Hh as [[P0 [Pm _]] [Hlen [m [Hm Hme]]]]. destruct (name_at_lt _ _ _ _ Hm) as [Hlt _].
     split; [exact OLD|]. split; [lia|]. split.
     + right. exists 0, (p_ptr pr). simpl. repeat split; auto.
       destruct n; [simpl in H2; lia|simpl; lia].
     + exists L. split; [apply grew_refl|]. split; [eapply NInv_ext; eauto|]. split.
       * intros p Hp. inversion Hp; subst p. exact HL.
-      * right. exists 0, (p_ptr pr). simpl. repeat split; auto; try (unfold Lptr; simpl; tauto).
-        destruct n; [simpl in H2; lia|simpl; lia].
+      * exists (Some (0, p_ptr pr)). split; [|simpl; intros s; tauto].
+        simpl. split; [destruct n; [simpl in H2; lia|simpl; lia]|]. split; [exact Hsl|].
+        split; [exact HL|]. split; [lia|]. split; [lia|]. split; [lia|].
+        exists m. split; [eapply name_at_stable; [exact Hm|exact Hag|lia]|exact Hme].
   - destruct OLD as [-> [X Sd]]. repeat split; auto; try apply X; try apply Sd.
     pose proof (try_push_err_size _ _ _ _ (proj1 (ni_nb _ _ _ Hi)) E) as K.
     rewrite be16_length in K. lia.
@@ -393,7 +427,9 @@ Proof.
       * right. exists 0, pp. simpl. repeat split; auto.
       * exists L. split; [apply grew_refl|]. split; [eapply NInv_ext; eauto|]. split.
         -- intros p Hp. inversion Hp; subst p. exact Lpp.
-        -- right. exists 0, pp. simpl. repeat split; auto; unfold Lptr; simpl; tauto.
+        -- exists (Some (0, pp)). split; [|simpl; intros s; tauto].
+           simpl. split; [lia|]. split; [exact Hsl|]. split; [exact Lpp|]. split; [lia|]. split; [lia|].
+           split; [lia|]. exists pre. split; [eapply name_at_stable; [exact M5|exact Hag|lia]|exact M6].
     + destruct OLD as [-> [X Sd]]. repeat split; auto; try apply X; try apply Sd.
       pose proof (try_push_err_size _ _ _ _ (proj1 (ni_nb _ _ _ Hi)) E) as K.
       rewrite be16_length in K. lia.
@@ -432,7 +468,11 @@ Proof.
         -- intros p Hp. destruct (hp_new (w_cursor w)) as [q|] eqn:Eh; simpl in Hp; [|discriminate].
            inversion Hp; subst p. apply hp_new_some in Eh as [-> _]. simpl.
            right. apply lstarts_head. destruct n; destruct sc; simpl in *; try lia; discriminate.
-        -- right. exists sc, pp. repeat split; auto; tauto.
+        -- exists (Some (sc, pp)). split; [|intros s; unfold Lptr; simpl; tauto].
+           simpl. split; [lia|]. split; [exact Hblk|]. split; [exact Lpp|]. split; [lia|]. split; [lia|].
+           split; [lia|]. exists pre. split; [|exact M6].
+           eapply name_at_stable; [exact M5| |lia].
+           eapply agree_trans; [exact Hag|]. eapply agree_le; [exact Hag2|lia].
 Qed.
 
 Lemma or_else_L (L : nat -> Prop) (a o : option prior) :
